@@ -875,6 +875,11 @@ pub(crate) mod convert {
     use crate::read::{self, Reader};
     use crate::write::{ConvertDebugInfoRef, ConvertError, ConvertResult};
 
+    /// The maximum nesting of `DW_OP_entry_value` operations that is converted.
+    ///
+    /// Compilers emit a nesting of one.
+    const MAX_ENTRY_VALUE_DEPTH: usize = 32;
+
     impl Expression {
         /// Create an expression from the input expression.
         pub(crate) fn from<R: Reader<Offset = usize>>(
@@ -883,6 +888,29 @@ pub(crate) mod convert {
             unit: Option<read::UnitRef<'_, R>>,
             convert_address: &dyn Fn(u64) -> Option<Address>,
             refs: &dyn ConvertDebugInfoRef,
+        ) -> ConvertResult<Expression> {
+            Self::from_nested(
+                from_expression,
+                encoding,
+                unit,
+                convert_address,
+                refs,
+                MAX_ENTRY_VALUE_DEPTH,
+            )
+        }
+
+        /// Create an expression from the input expression.
+        ///
+        /// `depth` is the number of levels of `DW_OP_entry_value` nesting that may still
+        /// be converted. Conversion, size calculation and writing all recurse once per
+        /// level, so untrusted input must not be able to choose the depth.
+        fn from_nested<R: Reader<Offset = usize>>(
+            from_expression: read::Expression<R>,
+            encoding: Encoding,
+            unit: Option<read::UnitRef<'_, R>>,
+            convert_address: &dyn Fn(u64) -> Option<Address>,
+            refs: &dyn ConvertDebugInfoRef,
+            depth: usize,
         ) -> ConvertResult<Expression> {
             // Calculate offsets for use in branch/skip operations.
             let mut offsets = Vec::new();
@@ -1013,12 +1041,16 @@ pub(crate) mod convert {
                         Operation::ImplicitPointer { entry, byte_offset }
                     }
                     read::Operation::EntryValue { expression } => {
-                        let expression = Expression::from(
+                        let Some(depth) = depth.checked_sub(1) else {
+                            return Err(ConvertError::UnsupportedOperation);
+                        };
+                        let expression = Expression::from_nested(
                             read::Expression(expression),
                             encoding,
                             unit,
                             convert_address,
                             refs,
+                            depth,
                         )?;
                         Operation::EntryValue(expression)
                     }
